@@ -11,8 +11,8 @@ import engine_bit as bit
 
 PROPS = {
     "C02": {
-        "controls": ["PAN-1", "PAN-3", "ERR-1"],
-        "rules": [("PAN-1", pan.pan1), ("PAN-2", pan.pan2), ("PAN-3", pan.pan3), ("PAN-4", pan.pan4), ("PAN-5", pan.pan5), ("ERR-1", err.err1)],
+        "controls": ["PAN-1", "PAN-3", "ERR-1", "PAN-7"],
+        "rules": [("PAN-1", pan.pan1), ("PAN-2", pan.pan2), ("PAN-3", pan.pan3), ("PAN-4", pan.pan4), ("PAN-5", pan.pan5), ("PAN-6", pan.pan6), ("PAN-7", pan.pan7), ("ERR-1", err.err1)],
         "explanation": "Decides four panic mechanisms whose presence is visible in the shape of the code (each a necessary condition of C02), not termination or "
                        "value-dependent panics. PAN-1: forward liveness of every RefCell guard on MIR plus interprocedural borrow summaries (cells = SubRule fields / "
                        "&RefCell parameters mapped through call sites): no borrow, and no call that may borrow, of a cell while a conflicting guard on it is live. "
@@ -20,7 +20,7 @@ PROPS = {
                        "producer table). PAN-3/PAN-4: a may-analysis of the parsers' HIR gives, per container (Input, Output, Env, Set, Structure, Optional; "
                        "(de)romaniser sides), the element kinds the grammar can put there; a tag analysis of the interpreter gives the containers whose elements reach "
                        "each match with an unreachable!/unimplemented! arm; the intersection must be empty (EmptySet/Metathesis discharged by four checked rule-type "
-                       "conditions). PAN-5: the cursor written back to the scan loop through next_pos is dominated by SegPos::increment on that cursor (deletion and substitution). ERR-1: no formatter call resolves to an unreachable!() stub.",
+                       "conditions). PAN-5: the cursor written back to the scan loop through next_pos is dominated by SegPos::increment on that cursor (deletion and substitution). PAN-6: lexer/parser alphabet agreement: every modifier value Lexer::get_feature / AliasLexer::get_feature can put into a Feature token (char literals, `matches!` ranges and ascii classes of the gate, and '-'+class) is listed by an arm of the corresponding curr_token_to_modifier, whose default arm is unreachable!(). PAN-7: no str/String anywhere in lib or bin is range-sliced at an offset that is not a byte offset of that same string (zero slices on the pinned tree; the positive control keeps the rule alive). ERR-1: no formatter call resolves to an unreachable!() stub.",
         "does_not_decide": "termination in general (e.g. `$ > $` spins although the cursor is advanced); index / slice / arithmetic / Option::unwrap panics that depend on cursor values (e.g. `r...l > l r r`); stack depth of the recursive matcher.",
         "assumptions": ["all SubRule methods are invoked on the same SubRule object (cells named by field)"],
     },
@@ -62,8 +62,10 @@ PROPS = {
         "assumptions": ["borrow checker: a function holding only &Word of a Freeze type cannot mutate it"],
     },
     "C15": {
-        "rules": [("FLW-2", flw.flw2)],
-        "explanation": "Decides the noninterference clause of C15 exactly as an information-flow statement: Transformation vectors are coloured by the AliasKind constant "
+        "rules": [("FLW-2", flw.flw2), ("SHR-2", tab2.shr2)],
+        "explanation": "SHR-2: in AliasParser::get_deromaniser / get_romaniser every Transformation takes its input from the input term list and its output from the output "
+                       "term list, element i selected under that list's own `len() == 1` test (or through a cycled iterator), so `a, b > x` pairs (a,x),(b,x). "
+                       "FLW-2 decides the noninterference clause of C15 exactly as an information-flow statement: Transformation vectors are coloured by the AliasKind constant "
                        "used to parse them; deromanisers reach only Word::new (word parsing), romanisers (or the empty list) only Word::render, at every call site, "
                        "through every intermediate parameter; no function reachable from rule application mentions Transformation; render takes &self.",
         "does_not_decide": "that a deromaniser `s > X` builds the same segment as typed X, and that the printed form is the default rendering rewritten by the table (value-level).",
@@ -134,9 +136,9 @@ PROPS = {
         "assumptions": [],
     },
     "C17": {
-        "controls": ["ERR-1"],
-        "rules": [("ERR-1", err.err1), ("ERR-2", err.err2), ("ERR-3", err.err3), ("ERR-4", err.err4)],
-        "explanation": "Decides the dispatch, payload and index-provenance clauses of C17: no call of an ASCAError formatter resolves to an impl whose "
+        "controls": ["ERR-1", "PAN-7"],
+        "rules": [("ERR-1", err.err1), ("ERR-2", err.err2), ("ERR-3", err.err3), ("ERR-4", err.err4), ("PAN-7", pan.pan7)],
+        "explanation": "PAN-7: formatting an error never slices a string at a character column (no str range-slice by a foreign offset in lib or bin). ERR-3 (ii-b): the characters handed to Lexer::new / AliasLexer::new are `<enumerated line>.chars().collect()` untransformed, so columns refer to the text the formatter prints. Decides the dispatch, payload and index-provenance clauses of C17: no call of an ASCAError formatter resolves to an impl whose "
                        "body is a bare unreachable!() (lib and CLI dispatchers cover all six Error variants); every variant of the six error enums carries a "
                        "location payload; the (group,line)/(kind,line) values handed to the lexers and parsers are the enumerate indices of exactly the slices "
                        "the formatters later index (rules[group].rule[line], into[line]/from[line]); every Position/Token/raw (group,line,pos) error is built from "
@@ -145,10 +147,10 @@ PROPS = {
         "assumptions": ["formatters keep binding the raw payload fields under the names group/line/kind"],
     },
     "C12": {
-        "rules": [("TAB-4", tab2.tab4), ("SHR-1", tab2.shr1)],
-        "explanation": "Decides two table/shape clauses of C12. SHR-1: in Rule::split_into_subrules each of the four lists (input, output, context, except) is indexed under a length test of that same list (a singleton is shared, otherwise element i) — necessary for 'a condensed rule behaves as its sub-rules'. TAB-4: the letter -> matrix table of Parser::group_to_matrix equals its "
+        "rules": [("TAB-4", tab2.tab4), ("SHR-1", tab2.shr1), ("SHR-3", tab2.shr3)],
+        "explanation": "Decides three table/shape clauses of C12. SHR-3: Parser::get_spec_env returns exactly two items, each an Environment with one Env: the first `before = X, after = []`, the second `before = [], after = X` passed through `rev()` (so Rule::split_into_subrules makes two sub-rules, `X_` then `_X` mirrored). SHR-1: in Rule::split_into_subrules each of the four lists (input, output, context, except) is indexed under a length test of that same list (a singleton is shared, otherwise element i) — necessary for 'a condensed rule behaves as its sub-rules'. TAB-4: the letter -> matrix table of Parser::group_to_matrix equals its "
                        "sibling in AliasParser and the table in doc/doc.md § Groupings (feature names resolved through the lexer's own synonym table).",
-        "does_not_decide": "that the sub-rules behave as separate rules, `_,X` mirroring, optional bounds and `&` expansion (equalities between two interpreter runs).",
+        "does_not_decide": "that the sub-rules behave as separate rules, optional bounds and `&` expansion (equalities between two interpreter runs).",
         "assumptions": ["doc/doc.md keeps its `X -> ... (equiv. to [..])` row layout"],
     },
     "C13": {
@@ -164,8 +166,8 @@ PROPS = {
     },
     "C04": {
         "controls": ["BIT"],
-        "rules": [("TAB-1", tab.tab1), ("TAB-2", tab.tab2), ("TAB-3", tab.tab3), ("BIT-3", bit.bit3)],
-        "explanation": "BIT-3 decides the single-feature equations of C04 for all segments at once by bit-level abstract interpretation of Segment::{get_node,set_node,set_feat,feat_match}: on a symbolic segment (3 symbolic bytes, place = one of 17 presence shapes with symbolic payloads), for every node, single-bit mask and polarity: feat_match is the named bit (its negation for -) and false on an absent sub-node; set_feat(+) yields old|bit (creating an absent sub-node with its other bits 0), set_feat(-) yields old&!bit and is the identity on an absent sub-node; every other node reads exactly as before; the feature then matches with the polarity set. Tables: the hand-maintained index tables (FType/NodeType/NodeKind "
+        "rules": [("TAB-1", tab.tab1), ("TAB-2", tab.tab2), ("TAB-3", tab.tab3), ("BIT-3", bit.bit3), ("FLW-8", flw2.flw8)],
+        "explanation": "FLW-8 decides the scoping clause of alpha binding ('in the same application'): on MIR, every call of input_match_at in SubRule::apply is dominated inside the scan loop by HashMap::clear of both `alphas` and `variables` (directly or through a SubRule method that clears on every path), and every restart of a partial input match in input_match_at (`state_index = 0` inside the loop) is paired in the same iteration with clears of both tables. BIT-3 decides the single-feature equations of C04 for all segments at once by bit-level abstract interpretation of Segment::{get_node,set_node,set_feat,feat_match}: on a symbolic segment (3 symbolic bytes, place = one of 17 presence shapes with symbolic payloads), for every node, single-bit mask and polarity: feat_match is the named bit (its negation for -) and false on an absent sub-node; set_feat(+) yields old|bit (creating an absent sub-node with its other bits 0), set_feat(-) yields old&!bit and is the identity on an absent sub-node; every other node reads exactly as before; the feature then matches with the polarity set. Tables: the hand-maintained index tables (FType/NodeType/NodeKind "
                        "from_usize & count, DiaFeatType = NodeType++FType, hm_to_mod split constant, modifier array lengths, "
                        "diacritics.json keys) agree, the 16-bit place packing is laid out consistently and used consistently by its accessors (TAB-3, see C18), and FType::to_node_mask maps every feature to exactly one bit, bits of a node "
                        "disjoint and contiguous and equal to the Place masks, enum order node-contiguous. A necessary condition: a "
